@@ -43,6 +43,7 @@ def bell_case(draw):
     if max(abs(v) for v in phi) < 0.2:
         phi[draw(st.integers(0, n - 1))] = 1.0
     return {"nxseg": nxseg, "xi": xi, "fr": fr, "kbw": k, "phi": phi, "fs": draw(st.one_of(st.sampled_from([1.0, 100.0, 2048.0]), st.floats(0.1, 5000))),
+            "over": draw(st.sampled_from([None, None, None, "upper", "lower", "both"])),  # analysis band reaching past the ends of the frequency axis
             "sel_off": draw(st.floats(-0.4, 0.4)), "scale": 10.0 ** draw(st.one_of(st.floats(-6, 6), st.sampled_from([-20.0, -16.0, -12.0, 8.0]))), "method": draw(st.sampled_from(["EFDD", "FSDD"]))}
 
 
@@ -69,8 +70,13 @@ def judge_bell(case, via_class):
     DF2 = case["kbw"] * bw
     DF1 = max(bw, 2 * fs / nx)
     sel = fn + case["sel_off"] * bw
+    over = case.get("over")
+    if over in ("upper", "both"):
+        DF2 = max(DF2, 1.1 * (fs / 2 - sel))
+    if over in ("lower", "both"):
+        DF2 = max(DF2, 1.1 * sel)
     method = case["method"]
-    j.tag(method, f"nx={nx}")
+    j.tag(method, f"nx={nx}", f"band-over={over}")
     j.nontrivial(True)
 
     def run(mat):
